@@ -414,5 +414,9 @@ def execute(sc):
         finally:
             gemato.cli.datetime = old_dt
     counters['file_operations_applied'] = modified
+    if seam.stats.get('leaked_fds'):
+        # conservation: every descriptor an update opens is closed again - an incremental update that keeps one per skipped
+        # file runs out of descriptors on a tree of a few thousand files, a full update does not
+        violations.append(viol('incr.descriptor-leak', '%d file descriptor(s) opened by the updates were never closed' % seam.stats['leaked_fds'], sig='fd'))
     return mk_result([seam], violations, modified > 0 and counters.get('rounds_compared', 0) > 0, outcome=outcome,
                      counters=counters, ops=2 + 2 * len(sc.get('rounds', [])))
